@@ -28,6 +28,7 @@ _add("C10", "bounded symbolic verification (CrossHair) of walk / enumeration / k
 _add("C07", "bounded model checking: per Coxeter matrix (125 rank-3 + rank-2/4 families in quick; 343 rank-3, 240 rank-4, 10 rank-5 in thorough) the real geodesic / shortlex / even automata tables are compared with an exact cyclotomic Cayley-ball oracle over ALL words up to length 6-12 by one z3 query each",
      tech="SMT bounded model checking (z3 QF_UFLIA) of the real automaton tables with a symbolic word against an exact cyclotomic-arithmetic oracle; witness words replayed with FSA.accepts",
      note="Coxeter matrices are enumerated configurations; nothing is claimed beyond the word-length bound; oracle = exact integer arithmetic + Tits faithfulness", eng="smtbmc")
+_add("C11", "bounded symbolic verification: operation histories of depth 1-2 (3 for projective polygons in thorough) over {copy, reconstruct, apply, reshape, flatten, index, setitem, stack, combine, astype} on projective/hyperbolic polygons, segments, tangent vectors with symbolic entries; stored derived data vs recomputed (projectively); read-only queries leave objects and caller arrays unchanged")
 NA = {}
 def main():
     checks = []
